@@ -231,16 +231,20 @@ void sk_fs_add(const char *path, int flags)
   K->fs[K->nfs].flags = flags;
   K->nfs++;
 }
-static int fs_lookup(const char *path0)
+static char fs_joined[8300];
+static const char *fs_resolve(const char *path0)
 {
   /* a relative name with a directory part is resolved against the working directory of the process that uses it
      (a bare name is looked up as it is: PATH search is not modelled) */
-  char joined[8300];
-  const char *path = path0;
   if (path0[0] != '/' && strchr(path0, '/') && K->cwdlen_override == 0) {
     const char *cwd = K->str + ME->cwd;
-    if (strlen(cwd) + strlen(path0) + 2 < sizeof joined) { snprintf(joined, sizeof joined, "%s%s%s", cwd, strcmp(cwd, "/") ? "/" : "", path0); path = joined; }
+    if (strlen(cwd) + strlen(path0) + 2 < sizeof fs_joined) { snprintf(fs_joined, sizeof fs_joined, "%s%s%s", cwd, strcmp(cwd, "/") ? "/" : "", path0); return fs_joined; }
   }
+  return path0;
+}
+static int fs_lookup(const char *path0)
+{
+  const char *path = fs_resolve(path0);
   for (int i = 0; i < K->nfs; i++) if (strcmp(K->str + K->fs[i].path, path) == 0) return K->fs[i].flags;
   /* FS_SUFFIX entries match any path that ends with them (used with synthetic, very long working directories) */
   size_t pl = strlen(path);
@@ -618,6 +622,8 @@ int __wrap_open(const char *path, int flags, ...)
     if (!(fl & FS_EXISTS) && path[0] == '/' && strncmp(path, "/nodir/", 7) == 0) { errno = ENOENT; return -1; }
     obj = sk_new_obj(OK_FILE, 0);
     K->obj[obj].pathid = sk_str(path);
+    K->obj[obj].abspath = sk_str(fs_resolve(path));
+    K->obj[obj].fsflags = fl;
   }
   int fd = lowest_free(p, 0);
   if (fd < 0) { K->obj[obj].kind = OK_FREE; errno = EMFILE; return -1; }
@@ -727,13 +733,17 @@ pid_t __wrap_fork(void)
 }
 pid_t __wrap_vfork(void) { return __wrap_fork(); }
 
+static int do_exec_fl(const char *file, char *const argv[], char *const envp[], int fl);
 static int do_exec(const char *file, char *const argv[], char *const envp[])
 {
   int e = fault(FK_EXEC);
   if (e) { errno = e; return -1; }
   if (sk_cur == 0) { sk_mon(MON_UNSUPPORTED, LK_EXEC, 0); errno = ENOSYS; return -1; }
   if (strlen(file) >= 4096) { errno = ENAMETOOLONG; return -1; }
-  int fl = fs_lookup(file);
+  return do_exec_fl(file, argv, envp, fs_lookup(file));
+}
+static int do_exec_fl(const char *file, char *const argv[], char *const envp[], int fl)
+{
   if (!(fl & FS_EXISTS)) { errno = ENOENT; return -1; }
   if (fl & FS_DIR) { errno = EACCES; return -1; }
   if (!(fl & FS_EXEC)) { errno = EACCES; return -1; }
@@ -758,6 +768,18 @@ int __wrap_execvp(const char *file, char *const argv[]) { return do_exec(file, a
 int __wrap_execv(const char *file, char *const argv[]) { return do_exec(file, argv, environ); }
 int __wrap_execve(const char *file, char *const argv[], char *const envp[]) { return do_exec(file, argv, envp); }
 int __wrap_execvpe(const char *file, char *const argv[], char *const envp[]) { return do_exec(file, argv, envp); }
+/* executing an open file: the file it names was settled when it was opened; the descriptor itself stays open across the exec unless it is close-on-exec */
+int __wrap_fexecve(int fd, char *const argv[], char *const envp[])
+{
+  int e = fault(FK_EXEC);
+  if (e) { errno = e; return -1; }
+  if (sk_cur == 0) { sk_mon(MON_UNSUPPORTED, LK_EXEC, 0); errno = ENOSYS; return -1; }
+  struct sk_proc *p = ME;
+  if (fd < 0 || fd >= SK_MAXFD || p->fd[fd].ofd < 0) { errno = EBADF; return -1; }
+  struct sk_obj *o = &K->obj[K->ofd[p->fd[fd].ofd].obj];
+  if (o->kind != OK_FILE || !o->abspath) { errno = EACCES; return -1; }
+  return do_exec_fl(K->str + o->abspath, argv, envp, o->fsflags);
+}
 
 void __wrap__exit(int status)
 {
@@ -813,7 +835,43 @@ pid_t __wrap_waitpid(pid_t pid, int *status, int options)
   return pid;
 }
 
-pid_t __wrap_waitpid(pid_t pid, int *status, int options);
+/* waitid: the same kernel object as waitpid, another way of asking (WNOWAIT looks without reaping) */
+int __wrap_waitid(idtype_t idtype, id_t id, siginfo_t *info, int options)
+{
+  pid_t pid = idtype == P_PID ? (pid_t) id : -1;
+  if (idtype != P_PID && idtype != P_ALL) { sk_mon(MON_UNSUPPORTED, LK_WAITPID, (int) idtype); errno = EINVAL; return -1; }
+  if (!(options & (WEXITED | WSTOPPED | WCONTINUED))) { errno = EINVAL; return -1; }
+  int st = 0; pid_t got;
+  if ((options & WNOWAIT) && pid > 0) {
+    int e = fault(FK_WAITPID);
+    if (e) { errno = e; return -1; }
+    int pi = sk_proc_by_pid(pid);
+    if (pi < 0 || K->proc[pi].state == PS_REAPED) { sk_mon(MON_WAIT_BADPID, pid, 0); sk_logev(LK_WAITPID, pid, 0, 0, -ECHILD); errno = ECHILD; return -1; }
+    struct sk_proc *c = &K->proc[pi];
+    int first = 1;
+    got = pid;
+    while (c->state != PS_ZOMBIE) {
+      if (options & WNOHANG) { got = 0; break; }
+      if (first) { K->blocks++; sk_logev(LK_BLOCK, LK_WAITPID, pid, 0, 0); first = 0; }
+      block_on("waitid");
+      if (sk_interrupt) { sk_interrupt = 0; errno = EINTR; return -1; }
+    }
+    st = c->status;
+  } else {
+    got = __wrap_waitpid(pid, &st, options & WNOHANG);
+    if (got < 0) return -1;
+  }
+  if (info) {
+    memset(info, 0, sizeof *info);
+    if (got > 0) {
+      info->si_signo = SIGCHLD; info->si_pid = got;
+      if (WIFEXITED(st)) { info->si_code = CLD_EXITED; info->si_status = WEXITSTATUS(st); }
+      else { info->si_code = WCOREDUMP(st) ? CLD_DUMPED : CLD_KILLED; info->si_status = WTERMSIG(st); }
+    }
+  }
+  return 0;
+}
+
 int __wrap_kill(pid_t pid, int sig)
 {
   int e = fault(FK_KILL);
